@@ -30,6 +30,54 @@ def key(row):
     return '|'.join('%s%s%s' % (s['act'], s['id'], s.get('name', '')) for s in row['steps'])
 
 
+def concurrent_traces(ck, quick):
+    """V: 4 goroutines per registry issue random create/close/delete/get/dump on 3 names without any gating while
+    the real close timers fire; every registry logs its events under its mutex; TLC validates each log against
+    NamedPipes.tla (a second successful create of a live name, a delete/close that succeeds on a missing name,
+    a timer closing a pipe twice ... are not behaviours of the specification)."""
+    import re
+    import subprocess
+    mxh = common.build_mxh()
+    regs = 24 if quick else 96
+    procs = []
+    for k in range(2 if quick else 6):
+        tr = os.path.join(ck.scratch, 'npt%d.ndjson' % k)
+        procs.append((tr, subprocess.Popen([mxh, 'named-drive', '-seed', str(ck.seed * 11 + k), '-n', str(regs), '-ops', '250', '-out', tr],
+                                           stdout=subprocess.PIPE, stderr=subprocess.PIPE)))
+    good = 0
+    for k, (tr, p) in enumerate(procs):
+        try:
+            _, err = p.communicate(timeout=900)
+        except subprocess.TimeoutExpired:
+            p.kill()
+            raise common.Infra('named-drive timed out')
+        if p.returncode != 0:
+            e = err.decode('utf-8', 'replace')
+            first = [l for l in e.split('\n') if l.startswith('panic:') or l.startswith('fatal error:')]
+            if first:
+                ck.violation('crash:concurrent:' + first[0], 'random concurrent named-pipe operations killed the process: ' + first[0], {'stderr': e[-2000:]})
+                continue
+            raise common.Infra('named-drive failed: ' + e[-1500:])
+        r = common.tlc('NamedPipesTrace', 'NamedPipesTrace.cfg', os.path.join(ck.scratch, 'nptv%d' % k), workers=1, timeout=1800,
+                       files={'trace.ndjson': open(tr).read()})
+        ck.add_tlc(r)
+        ck.cov['evaluations'] += regs
+        if r.violated:
+            rows = common.read_ndjson(tr)
+            m = re.search(r'"REJECTED_AT", (\d+)', r.out)
+            line = int(m.group(1)) if m else 0
+            ev = rows[line - 1] if 0 < line <= len(rows) else None
+            start = max([i for i in range(0, max(1, line)) if rows[i]['ev'] == 'reset'] or [0])
+            ck.violation('trace:%s:%s' % (r.violated, ev and '%s:%s' % (ev['ev'], ev['ok'])),
+                         'a recorded concurrent execution of a named-pipe registry is not a behaviour of NamedPipes.tla (%s at event %s)' % (r.violated, ev),
+                         {'tlc': r.violated, 'rejected_event': ev, 'trace': rows[max(start, line - 40):line + 1]})
+        else:
+            good += regs
+            if k == 0:
+                ck.sample({'kind': 'validated registry log prefix', 'events': common.read_ndjson(tr)[:20]})
+    return good
+
+
 def run(ck, replay=None):
     quick = ck.tier == 'quick'
     ck.cov['rule'] = ('behaviours = paths covering every reachable state (thorough: every transition) of NamedPipes.tla '
@@ -109,6 +157,7 @@ def run(ck, replay=None):
                 raise common.Infra('replay infrastructure error: %s' % x)
         ck.cov.setdefault('replay_configs', {})[cfg] = dict(info, mode=mode, replayed=len(rows))
     ck.cov['replay_deviations'] = deviations
+    ok += concurrent_traces(ck, quick)
     ck.cov['traces_validated_against_impl'] = ok
     ck.cov['distinct_nontrivial'] = len(nontriv)
     ck.cov['exhaustive'] = not quick
